@@ -98,6 +98,23 @@ def run(ctx, idx):
     if _init is None:
         raise AnalysisError("C12.j: Program.__init__ vanished")
     library_membership(ctx, idx, "C12.j", _init)
+    ctx.rule("C12.l", "No undeclared parameter is given: no built-in command switches the check off for itself (`allow_extra_inputs = True` accepts every argument name - a misspelt MissingVal is then silently ignored and the model runs on unmasked data).")
+    n_ext = 0
+    for d_ in K.table(idx):
+        if not d_.module.name.startswith("mpilot.libraries."):
+            continue
+        n_ext += 1
+        c0_, cexpr_ = idx.find_attr(d_.cls, "allow_extra_inputs")
+        on_ = isinstance(cexpr_, ast.Constant) and cexpr_.value is True
+        if on_:
+            ctx.violate("C12.l", "%s::declares-its-parameters" % d_.key, d_.module.rel, cexpr_.lineno, "%s sets allow_extra_inputs = True: NoSuchParameter is never raised for it, at load, in the pre-pass or in validate_params - any argument name is accepted and ignored" % d_.cls.name)
+    if n_ext:
+        ctx.hold("C12.l", "mpilot/libraries::declare-their-parameters", "mpilot/libraries/eems/basic.py", 1, "%d library commands examined" % n_ext, nontrivial=False)
+    ctx.floor("C12.l", "library commands", n_ext, 30)
+    ctx.rule("C12.k", "Acceptance does not depend on the order of the commands: nothing consults the command table for a referenced result while the program is being loaded (from_source / add_command) - a reference is resolved when the model is run (C01.h's reading; a load-time existence check refuses every well-formed model whose consumer is written before its producer).")
+    from .C01 import rule_h as _load_time_lookups
+
+    _load_time_lookups(ctx, idx, A, rule="C12.k")
     ctx.rule("C12.i", "A well-formed model is accepted wherever it is run from: a relative file name is refused only when the program has NO working directory (None); the empty string is the current directory (what the command-line tool passes for a command file given without a directory) - C20.e's reading of PathParameter.clean.")
     from .C20 import no_working_dir_means_none
 
